@@ -57,6 +57,73 @@ CLAIMS = {
         ref='DESIGN.md §5 C07'),
 }
 
+CLAIMS.update({
+    'C03': dict(
+        category='proof',
+        technique='Lean 4 invariant proof (walk_layout, assemble_layout) over a pass-by-pass model + decoded-transfer oracle on the real output',
+        text=('Theorems: the in-place label shifting of transform_compressible / transform_pseudo_instructions / resolve_aligns keeps the '
+              'label table equal to the layout of the item list for every list and loop body (walk_layout, by induction, no size bound), and '
+              'chaining it through assemble() shows that the reported label table gives for every label exactly the number of bytes emitted '
+              'before its marker and the binary is the in-order concatenation of the blobs (assemble_layout). That the encoded offset then '
+              'lands on the label follows from the encoder round trips (C01/C02/C07). Tie and search: 1500+ seeded programs per run (all '
+              'distance classes, pessimistically-far and really-far call/tail layouts, both modes) are assembled by the real code; label '
+              'offsets are recomputed from the per-item chunks and every branch/jump/call/tail is decoded by the Lean spec and must reach its label.'),
+        note=TB + ' Hypotheses of assemble_layout: every align argument / include_bytes size is non-negative; no caller-pre-populated label table.',
+        ref='DESIGN.md §5 C03'),
+    'C08': dict(
+        category='proof',
+        technique='assemble_layout (final label table = byte offsets) + positions tracked by the resolve_immediates walk; value oracle on the real output',
+        text=('The model evaluates every immediate in resolve_immediates at the walk position, which walk_layout/assemble_layout prove to be '
+              'the byte offset of the item, against the final label table. The check recovers the value each referring item encodes in the real '
+              'output (data bytes, decoded immediates, executed li) for dw/dd/pack, li, %hi/%lo pairs and I-type immediates written as bare '
+              'labels, %position and %offset, before/after the label, across aligns and shrinking code, both modes. Known findings: KF-D '
+              '(li with %offset, long form), KF-A (stale early decisions).'),
+        note=TB,
+        ref='DESIGN.md §5 C08'),
+    'C09': dict(
+        category='proof',
+        technique='assemble_layout + alignPadding_range (minimal zero padding) + chunk-walk oracle on the real output',
+        text=('assemble_layout proves the output is the in-order concatenation of the final blobs with every pass after resolve_aligns '
+              'one-to-one and size-preserving; alignPadding_range proves 0 <= padding < N and (position + padding) mod N = 0 for every N >= 1. '
+              'The check walks the per-item chunks of the real output: chunk order = source order, documented size per line, aligns emit the '
+              'minimal number of zero bytes at every residue, data lines emit Python\'s own int.to_bytes / str.encode of the written values.'),
+        note=TB,
+        ref='DESIGN.md §5 C09'),
+    'C04': dict(
+        category='exploration',
+        technique='differential execution of the -c and non -c builds under the Lean exec specification (proof of rule soundness pending)',
+        text=('Every instruction line of every generated program is assembled without and with -c by the real assembler and both encodings are '
+              'executed by the Lean specification (decode32 / decode16+expand16 / exec) from 8 register files; registers written, memory '
+              'stores and control-transfer target (mapped through the label tables of both layouts) must agree; data bytes must be identical. '
+              'Label-dependent immediates are checked against the final offsets in both modes. Known finding KF-A4 (stale compression decisions).'),
+        note=TB + ' exec is a hand-written RV32IM + RVC-expansion semantics; theorems for the compression rules are not yet in the build.',
+        ref='DESIGN.md §5 C04'),
+    'C05': dict(
+        category='exploration',
+        technique='execution of emitted code under the Lean exec specification vs the documented effect (theorems pending)',
+        text=('For every pseudo-instruction line (all 27, all register choices incl. rd=rs/x0/sp, li values on the 12-/32-bit edges, all '
+              'target distance classes incl. far call/tail) the code emitted by the real assembler, without and with -c, is executed by the Lean '
+              'specification from 8 register files and compared with the documented effect computed from the same registers: destination '
+              'value, no other register changed (except the documented scratch of far tail), pc.'),
+        note=TB,
+        ref='DESIGN.md §5 C05'),
+    'C12': dict(
+        category='exploration',
+        technique='outcome pairs (without / with -c) on generated programs incl. constants as shift amounts, label-dependent immediates, far call/tail',
+        text=('Each generated program is assembled both ways by the real assembler; a success without -c and a failure with -c is a violation '
+              'unless the failing line falls in the known-finding classes KF-A3 / KF-B (label-dependent immediate consulted by a compression rule).'),
+        note=TB,
+        ref='DESIGN.md §5 C12'),
+    'C20': dict(
+        category='exploration',
+        technique='eligibility decided by the Lean RVC specification (eligible = expansion of a legal RV32C instruction) vs emitted length; size / label monotonicity',
+        text=('For every literal-operand instruction line the Lean specification decides whether the 32-bit instruction is the expansion of a legal '
+              'non-hint RV32C instruction; if so the -c build must emit 2 bytes. Binary length and every label offset with -c must not exceed '
+              'those without. Known finding KF-A5 (label arithmetic in li).'),
+        note=TB,
+        ref='DESIGN.md §5 C20'),
+})
+
 PENDING_REASON = 'check not built yet (work in progress; see DESIGN.md section 5 for the plan)'
 
 
